@@ -949,6 +949,67 @@ func mutOps() []mutOp {
 			}
 			scs := m.compositeScopes()
 			m.r.Shuffle(len(scs), func(i, j int) { scs[i], scs[j] = scs[j], scs[i] })
+			if m.r.Chance(1, 4) {
+				// a leaf field and a field with a selection set under one response name, in either order
+				for _, sc := range scs {
+					td := m.s.Type(sc.parent)
+					if td == nil || td.Kind == "union" {
+						continue
+					}
+					for _, fa := range td.Fields {
+						for _, fb := range td.Fields {
+							if m.s.IsComposite(fa.T.Base()) || !m.s.IsComposite(fb.T.Base()) || !noReq(fa) || !noReq(fb) {
+								continue
+							}
+							k := m.fresh("sh")
+							leaf := &Sel{Kind: 0, Alias: k, Name: fa.Name}
+							comp := &Sel{Kind: 0, Alias: k, Name: fb.Name, Sels: []*Sel{{Kind: 0, Name: "__typename"}}}
+							if m.r.Chance(1, 2) {
+								*sc.list = append(*sc.list, leaf, comp)
+								return "same-parent/leaf-vs-composite"
+							}
+							*sc.list = append(*sc.list, comp, leaf)
+							return "same-parent/composite-vs-leaf"
+						}
+					}
+				}
+			}
+			if m.r.Chance(1, 4) {
+				// composite fields of two different object types whose list / non-null wrappers differ
+				wrappersDiffer := func(a, b *Ty) bool {
+					for {
+						if a.Kind != b.Kind {
+							return true
+						}
+						if a.Kind == 0 {
+							return false
+						}
+						a, b = a.Of, b.Of
+					}
+				}
+				for _, sc := range scs {
+					poss := m.s.Possible(sc.parent)
+					for _, an := range poss {
+						for _, bn := range poss {
+							if an == bn {
+								continue
+							}
+							for _, fa := range m.s.Type(an).Fields {
+								for _, fb := range m.s.Type(bn).Fields {
+									if !m.s.IsComposite(fa.T.Base()) || !m.s.IsComposite(fb.T.Base()) || !noReq(fa) || !noReq(fb) || !wrappersDiffer(fa.T, fb.T) {
+										continue
+									}
+									k := m.fresh("sh")
+									*sc.list = append(*sc.list,
+										&Sel{Kind: 1, Cond: an, Sels: []*Sel{{Kind: 0, Alias: k, Name: fa.Name, Sels: []*Sel{{Kind: 0, Name: "__typename"}}}}},
+										&Sel{Kind: 1, Cond: bn, Sels: []*Sel{{Kind: 0, Alias: k, Name: fb.Name, Sels: []*Sel{{Kind: 0, Name: "__typename"}}}}})
+									return "distinct-objects/composite/" + fa.T.String() + "-vs-" + fb.T.String()
+								}
+							}
+						}
+					}
+				}
+			}
 			if m.r.Chance(1, 2) {
 				// through inline fragments on two different object types
 				for _, sc := range scs {
